@@ -10,6 +10,21 @@ VERIF = os.path.dirname(os.path.dirname(os.path.abspath(__file__)))
 TECH = "CBMC 6.11 code contracts (goto-instrument --dfcc) enforced per function on the real /repo sources"
 
 CLAIMS = {
+    "C01": {
+        "text": "Every operation of channel.c is enforced against a contract over the abstract view 'unread path of reader i' (at most two physical intervals, normalised): write_map keeps every path, write_unmap appends the written region at the end of every path, abort adds nothing, read_map returns exactly the first interval and an empty slice only when the path is empty, read_unmap removes exactly min(consumed, held) bytes from the front; all preserve the monitor invariant (asserted at every lock release and wait) and touch no other reader's slot. Sizes are symbolic up to 2^40, 0..8 readers by 8-way expansion, the writer's wait loop is closed by a loop contract with an environment-havoc wait stub, so all interleavings reduce to sequences of critical sections; induction over the history gives the property.",
+        "note": "Assumes pthread mutual exclusion / cond-var semantics (stubs implement the monitor rule), a single writer per channel, capacity <= 2^40, lap counter < 2^62, memory_alloc succeeds. The induction from per-operation contracts to 'the reader obtains exactly the committed byte sequence' is a paper argument.",
+        "design": "5/C01",
+    },
+    "C02": {
+        "text": "next_write (with reader_min and cursor_cmp under their own contracts, replaced modularly) is proved to grant only regions inside the buffer that overlap no unread byte of any reader, to keep every reader at most one lap behind and to reset readers only when all are drained at the head; channel_write_map returns exactly [head', mapped') and the invariant (which contains mapped <= p_i for readers one lap behind) makes the guarantee stable until the commit; read_map hands out a slice inside the unread path with a cursor satisfying MAPPED_OK, and every writer operation is proved to preserve MAPPED_OK of an arbitrary other mapped reader (non-interference).",
+        "note": "Same trusted base as C01. The callers' single-writer discipline is a precondition here and is checked at the call sites in the source/filter units. reader_min's loop is closed by complete unwinding (n <= 8 from the invariant, unwinding assertion on).",
+        "design": "5/C02",
+    },
+    "C03": {
+        "text": "Safety half of 'no lost wake-up', all machine-checked on the real code: the writer sleeps only inside a re-check loop (loop contract) while writes are accepted; it returns NULL whenever it observes the refuse flag after a wake-up; a ghost lock/notify discipline automaton in the platform stubs proves that every change that can enable the writer (a reader hold moving, the refuse signal) is written, then published by a lock release, then notified, in read_map, read_unmap and accept_writes; loop-free full-domain progress lemmas: next_write finds space whenever all readers are drained at the head and the request is below the capacity, and three map/unmap rounds drain any reader into that state.",
+        "note": "Not decided by this technique: fair scheduling and termination of the wait (liveness); pthread_cond semantics are assumed. The meta-theorem 'discipline implies no lost wake-up' is a paper argument (DESIGN 4.2).",
+        "design": "5/C03",
+    },
     "C11": {
         "text": "Every HAL wrapper in camera.c, storage.c and driver.c carries a DFCC-enforced contract against a ghost protocol driver with nondeterministic return codes: AGREE(HAL state, driver typestate) is preserved by each call, each call makes exactly the legal driver calls, one close per open on every path, no access to a freed device. All functions are loop-free, so the proofs are unbounded; induction over the call sequence gives all finite histories.",
         "note": "Assumes: a driver whose open() fails opened nothing; driver.close releases the object; storage drivers declare their own state (a Running answer from set counts as started); device_manager_get_driver (C++) stubbed; CBMC/goto-cc semantics.",
